@@ -660,7 +660,8 @@ def check_all_actors(world, rec, skip=None):
         snap, anomalies = snapshot(act.sut)
         bad = [(a[0], f"{a[1]!r} {a[2]}") for a in anomalies] + integrity(snap)
         for clause, detail in bad:
-            world.find({INTEGRITY_PROP[act.kind], "C07"}, "bystander_" + clause, rec, act.kind,
+            world.find({"C06"} if clause.endswith("view_not_live") else {INTEGRITY_PROP[act.kind], "C07"},
+                       "bystander_" + clause, rec, act.kind,
                        f"actor {name} (not the target of this step): {detail}")
         diffs = compare(snap, act.model)
         for clause, detail in diffs:
@@ -737,7 +738,7 @@ def exec_mutation(world, actor, rec):
             if exc is None and op in ("close", "clear") or not sc_bad:
                 actor.sc_dirty = False
     for clause, detail in bad:
-        world.find({iprop}, clause, rec, actor.kind,
+        world.find({"C06"} if clause.endswith("view_not_live") else {iprop}, clause, rec, actor.kind,
                    f"after {'raising ' + type(exc).__name__ if exc else 'returning'}: {detail}")
     if bad:
         actor.snap = post
